@@ -118,12 +118,18 @@ func runC18(env *core.Env) {
 			}
 		}
 	}
-	// file-presence combinations on the store that is hit (single store at level 1, started from level 2 and level 1)
+	// file-presence combinations on the store that is hit: a single store at level 1, and the same store nested inside
+	// an outer project that does have a log (the inner one must still win, whatever files it holds)
 	for mask := 0; mask < 8; mask++ {
-		for start := 1; start < 3; start++ {
-			l := c18Layout{Ergo: [3]int{0, 1, 0}, Present: mask}
-			for _, sp := range c18Spellings(c18Levels[start], start == 1) {
-				jobs = append(jobs, job{l, start, sp})
+		for _, ergo := range [][3]int{{0, 1, 0}, {1, 1, 0}, {1, 1, 1}} {
+			for start := 1; start < 3; start++ {
+				if ergo[2] == 1 && start == 2 {
+					continue // the level-2 store would be the nearest one
+				}
+				l := c18Layout{Ergo: ergo, Present: mask}
+				for _, sp := range c18Spellings(c18Levels[start], start == 1) {
+					jobs = append(jobs, job{l, start, sp})
+				}
 			}
 		}
 	}
